@@ -30,7 +30,7 @@ def plan(tier, seed, nproc, scale):
 def run_shard(spec, rec):
     import jsonpath_rfc9535 as jp
     R = random.Random(spec["seed"])
-    cfg = G.Cfg(filters=False, max_segments=4)
+    cfg = G.Cfg(filters=False, max_segments=4, big_ints=True)
     gen = G.QGen(R, cfg)
     from jsonpath_rfc9535 import JSONPathEnvironment
     toggled = JSONPathEnvironment()
